@@ -377,6 +377,13 @@ func genPrw(r *rand.Rand, c *Case, kind int) {
 		if r.Intn(2) == 0 {
 			c.Body.Prw = append(c.Body.Prw, mk(1, 1+r.Intn(3)))
 		}
+	case 8: // several series: the point counter crosses its limit dozens of times and the sample bytes cross the size threshold too
+		c.Class = "both-thresholds"
+		total := envInt("C03_THRESHOLD", 1<<20)/26 + flushLimit + r.Intn(2*flushLimit)
+		ns := 3 + r.Intn(4)
+		for i := 0; i < ns; i++ {
+			c.Body.Prw = append(c.Body.Prw, mk(i, total/ns+r.Intn(50)))
+		}
 	case 5: // the 1000th point is the first of several samples of the second series
 		c.Class = "flush-mid-series-999+k"
 		c.Body.Prw = append(c.Body.Prw, mk(0, flushLimit-1), mk(1, 2+r.Intn(4)))
@@ -683,7 +690,7 @@ func genOtlp(r *rand.Rand, c *Case) {
 }
 
 func reserved(i int) bool {
-	return i%200 == 3 || i%400 == 9 || i%1000 == 501 || i%100 == 51 || i%40 == 2 || i%50 == 31
+	return i%400 == 209 || i%400 == 309 || i%200 == 3 || i%400 == 9 || i%1000 == 501 || i%100 == 51 || i%40 == 2 || i%50 == 31
 }
 
 // genHistory draws a HISTORY: 2..5 bodies decoded one after another in this process (same parser objects, and for
@@ -807,6 +814,12 @@ func gen(r *rand.Rand, i int) Case {
 		c.Cache = "set"
 	}
 	switch {
+	case i%400 == 209:
+		c.Proto = "prw"
+		genPrw(r, &c, 8)
+	case i%400 == 309:
+		c.Proto = pick(r, []string{"ddcf", "esbulk"})
+		genNDBig(r, &c)
 	case i%200 == 3:
 		c.Proto = "loki_json"
 		genLokiBig(r, &c, 0)
